@@ -26,9 +26,9 @@
 EXTENDS Render
 
 \* ---------------------------------------------------------------- comment texts
-BodyAlphabet == <<"a", "*", "/", " ", "\"", "\n">>        \* block comment bodies
-SafeAlphabet == <<"a", " ", "\"", "\n", "b", "'">>        \* ... without the two characters of the delimiters
-LineAlphabet == <<"a", "*", "/", " ", "\"", "'">>         \* line comment texts (no line break)
+BodyAlphabet == <<"a", "*", "/", " ", "\"", "\n", "\\">>  \* block comment bodies (a backslash is an ordinary character)
+SafeAlphabet == <<"a", " ", "\"", "\n", "b", "'", "\\">>  \* ... without the two characters of the delimiters
+LineAlphabet == <<"a", "*", "/", " ", "\"", "'", "\\">>   \* line comment texts (no line break)
 
 HasCloser(b) == \E i \in 1..(Len(b) - 1) : SubSeq(b, i, i + 1) = "*/"
 BlockComment(b) == "/*" \o b \o "*/"
